@@ -123,6 +123,7 @@ struct App : AppSink {
         switch (a.kind) {
             case Action::run: {
                 if (!cl->alive()) break;
+                if (running) { w.log(Ev::note, -1, -1, 0, "script: async_run skipped, the client is already running"); break; }
                 auto& r = new_op(OpKind::run); op = r.id;
                 terminal = false; running = true;
                 ++depth; cl->async_run(r.id, a.with_slot); --depth;
@@ -194,10 +195,12 @@ struct App : AppSink {
                 if (r.completions) break;     // nothing to cancel any more
                 r.signalled = true; r.seq_signal = w.next_seq(); r.signal_type = int(a.sig);
                 w.log(Ev::signal, t, int(a.sig));
-                // a per-operation signal cancels the whole client (documented): treat as terminal for the incarnation
-                terminal = true; w.terminal_called = true; ++incarnation;
+                // documented: a terminal signal on run/publish/subscribe/unsubscribe/disconnect cancels the whole client;
+                // total and partial only mark the operation (it completes with operation_aborted instead of being re-sent)
+                bool whole = a.sig == SigType::terminal && r.kind != OpKind::recv;
+                if (whole) { w.log(Ev::terminal, t, 3, 0, "terminal cancellation signal"); terminal = true; w.terminal_called = true; ++incarnation; }
                 ++depth; cl->emit_signal(t, a.sig); --depth;
-                expect_drain = true;
+                if (whole) expect_drain = true;
                 break;
             }
             case Action::broker_publish:
@@ -322,6 +325,25 @@ std::unique_ptr<Execution> execute(const Scenario& sc) {
         if (w.has_events() && w.next_event_time() <= next) w.fire_next();
         else verif::g_now_ns = next;
     }
+    // an async_disconnect still in flight at the end of the script is allowed its 5 s
+    vt saved_end = sc.end;
+    if (ok && app->disconnect_op >= 0 && !w.h.ops[app->disconnect_op].completions) {
+        vt limit = std::max(sc.end, w.h.ops[app->disconnect_op].t_init + 6 * SEC);
+        while (ok && !w.h.ops[app->disconnect_op].completions) {
+            ok = settle();
+            if (!ok) break;
+            ++out.idle_points;
+            check_drain();
+            while (!verif::g_expiries.empty() && verif::g_expiries.top() <= verif::g_now_ns) verif::g_expiries.pop();
+            vt next = -1;
+            if (w.has_events()) next = w.next_event_time();
+            if (!verif::g_expiries.empty() && (next < 0 || verif::g_expiries.top() < next)) next = verif::g_expiries.top();
+            if (next < 0 || next > limit) break;
+            if (w.has_events() && w.next_event_time() <= next) w.fire_next(); else verif::g_now_ns = next;
+        }
+        if (ok) { ok = settle(); if (ok) check_drain(); }
+    }
+    (void)saved_end;
     if (verif::g_now_ns < sc.end && ok) verif::g_now_ns = sc.end;
     out.t_end = verif::g_now_ns;
 
